@@ -382,9 +382,31 @@ def pRegs : P Regs := do
   let objs ← pCounted tok; let cols ← pCounted tok; let acts ← pCounted tok
   pure ⟨a, b, c, d, e, f, objs, cols, acts⟩
 
+/-- a parameter value as the harness prints it (`b0`, `i5`, `f-5e2`, `sWall`, `[i5;i5]`) -/
+partial def showYamlVal : Yaml → String
+  | .null => "n"
+  | .bool b => if b then "b1" else "b0"
+  | .int i => "i" ++ toString i
+  | .float m e => "f" ++ toString m ++ "e" ++ toString e
+  | .str t => "s" ++ t
+  | .list l => "[" ++ ";".intercalate (l.map showYamlVal) ++ "]"
+  | .map _ => "{}"
+
+/-- keys whose values are turned into objects by `process_reserved_keys` (only the key is printed),
+except `shape`, `layout` (the same pair of integers) and `distance_function` (the same name) -/
+def convertedKeys : List String :=
+  ["transition_functions", "reward_functions", "terminating_functions", "reward_function",
+   "visibility_function", "area", "object_type", "colors"]
+
+def showKw (kv : String × Yaml) : String :=
+  if convertedKeys.contains kv.1 then kv.1 else
+  match kv.2 with
+  | .map _ => kv.1
+  | v => kv.1 ++ "=" ++ showYamlVal v
+
 partial def showComp : Comp → String
   | .mk name kws subs =>
-    name ++ "(" ++ ",".intercalate kws ++ ")" ++
+    name ++ "(" ++ ",".intercalate (kws.map showKw) ++ ")" ++
       (if subs.isEmpty then "" else "[" ++ ";".intercalate (subs.map showComp) ++ "]")
 
 def showDesc (d : EnvDesc) : String :=
